@@ -457,7 +457,7 @@ def run(tier, seed):
     t0 = time.time()
     # 1. exhaustive model checking, scaled constants
     r = tlc.run("LlcpDlc.tla", "MC_LlcpDlc.cfg" if quick else "MC_LlcpDlc_thorough.cfg", PID,
-                workers=16, timeout=900 if quick else 1500)
+                workers=16, timeout=900 if quick else 3600)
     if not r.ok:
         ck.violation("spec:LlcpDlc:" + ",".join(r.violated or ["deadlock"]),
                      "TLC found a violation in the design-level model: %s" % (r.error_trace or "")[:2000])
@@ -472,7 +472,7 @@ def run(tier, seed):
     ck.cover(witnesses_reached=sorted(need))
     # the close() model (CloseBegin/CloseEnd enabled): same invariants incl. NotBroken
     c = tlc.run("LlcpDlc.tla", "MC_LlcpDlc_closeq.cfg" if quick else "MC_LlcpDlc_close.cfg", PID,
-                workers=16, timeout=900 if quick else 1200)
+                workers=16, timeout=900 if quick else 3600)
     if not c.ok:
         ck.violation("spec:LlcpDlc(close):" + ",".join(c.violated or ["deadlock"]),
                      "TLC found a violation in the close() model: %s" % (c.error_trace or "")[:2000])
